@@ -6,7 +6,7 @@ Writes /verif/seeded/<id>/result.json and prints one line per seeded change."""
 import json, os, subprocess, sys, time
 
 ROOT = os.path.dirname(os.path.dirname(os.path.abspath(__file__)))
-SEEDED = os.path.join(ROOT, "seeded")
+SEEDED = os.path.join(ROOT, os.environ.get("SEEDED_DIR", "seeded"))
 
 
 def sh(cmd, **kw):
